@@ -354,6 +354,74 @@ def shares_abstraction(lang: Lang, t) -> bool:
 
 
 # --------------------------------------------------------------------------
+# generator-side filter: duplicating combinators nest into normal forms of
+# astronomic size (thrice thrice (wcomb pchoose) has 2^27 nodes); a budgeted
+# evaluation discards such expressions before anything is run on them.  Not an
+# oracle: nothing is compared with its result.
+
+class _Budget(Exception):
+    pass
+
+
+def small_normal_form(lang: Lang, t, max_nodes=1200, max_work=150000) -> bool:
+    work = [0]
+
+    def tick():
+        work[0] += 1
+        if work[0] > max_work:
+            raise _Budget
+
+    def db(t, k):
+        if t[0] == 'par':
+            return ('var', k - 1 - t[1])
+        if t[0] == 'app':
+            return ('app', db(t[1], k), db(t[2], k))
+        return t
+
+    def shift(t, d, c):
+        tick()
+        if t[0] == 'var':
+            return ('var', t[1] + d) if t[1] >= c else t
+        if t[0] == 'app':
+            return ('app', shift(t[1], d, c), shift(t[2], d, c))
+        if t[0] == 'lam':
+            return ('lam', shift(t[1], d, c + 1))
+        return t
+
+    def subst(b, x, k):
+        tick()
+        if b[0] == 'var':
+            return shift(x, k, 0) if b[1] == k else (('var', b[1] - 1) if b[1] > k else b)
+        if b[0] == 'app':
+            return ('app', subst(b[1], x, k), subst(b[2], x, k))
+        if b[0] == 'lam':
+            return ('lam', subst(b[1], x, k + 1))
+        return b
+
+    def norm(t):
+        tick()
+        if t[0] == 'op' and lang.composite(t[1]):
+            k, body = lang.ops[t[1]]["body"]
+            u = db(body, k)
+            for _ in range(k):
+                u = ('lam', u)
+            return norm(u)
+        if t[0] == 'app':
+            f, x = norm(t[1]), norm(t[2])
+            return norm(subst(f[1], x, 0)) if f[0] == 'lam' else ('app', f, x)
+        if t[0] == 'lam':
+            return ('lam', norm(t[1]))
+        return t
+
+    def size(t):
+        return 1 + (size(t[1]) + size(t[2]) if t[0] == 'app' else size(t[1]) if t[0] == 'lam' else 0)
+    try:
+        return size(norm(t)) <= max_nodes
+    except (_Budget, RecursionError):
+        return False
+
+
+# --------------------------------------------------------------------------
 # model side: de Bruijn terms as Coq text
 
 def tm_coq(t, k=0):
@@ -669,7 +737,7 @@ def gen_cases(rng: random.Random, nlang: int, nexpr: int, depth: int):
             tries += 1
             T = g.pool_type() if rng.random() < 0.8 else fn([g.pool_type(False)], g.pool_type(False))
             t = g.gen(T, len(lang.ops), [], rng.randint(1, depth), [60])
-            if t is None or term_size(t) > 60:
+            if t is None or term_size(t) > 60 or not small_normal_form(lang, t):
                 continue
             exprs.append(t)
         cases.append((lang, exprs))
@@ -690,12 +758,13 @@ class Runner:
         self.sizes = {}
         self.samples = []
         self.nviol = 0
+        self.kinds = {}
 
     def viol(self, name, payload, **kw):
         self.nviol += 1
-        if self.nviol <= 12:
-            self.rep.violation(name, payload, **kw)
-        elif kw.get("signature") and self.rep.known(kw["signature"]):
+        key = f"{name.split('_')[0]}|{kw.get('signature')}"
+        self.kinds[key] = self.kinds.get(key, 0) + 1
+        if self.kinds[key] <= 3 or (kw.get("signature") and self.rep.known(kw["signature"])):
             self.rep.violation(name, payload, **kw)
 
     def validate(self, lang: Lang, impl: Impl, li: int):
@@ -950,7 +1019,7 @@ def main(tier: str, seed: int, replay: str | None = None) -> int:
         "samples": run.samples,
         "outcome_distribution": run.dist,
         "expression_size_distribution": {str(k): v for k, v in sorted(run.sizes.items())},
-        "violations_found": run.nviol,
+        "violations_found": run.nviol, "violations_by_kind_and_signature": run.kinds,
         "exhaustive": False,
         "model_fuel": FUEL,
     })
